@@ -14,7 +14,7 @@ import (
 // that sets every media up. The SETUP request lines must lead back to the medias they were issued for.
 type CtlCase struct {
 	Style  string `json:"style"` // relative relative-deep absolute absolute-otherhost query slash
-	Base   string `json:"base"`  // slash noslash absent relpath other
+	Base   string `json:"base"`  // slash noslash absent relpath relpath-esc other
 	Path   string `json:"path"`
 	Query  string `json:"query,omitempty"`
 	Creds  bool   `json:"creds,omitempty"`
@@ -68,6 +68,11 @@ func RunCtl(c CtlCase) error {
 	case "relpath":
 		baseURL = noQuery + "/"
 		srv.Rules = append(srv.Rules, SrvRule{Method: "DESCRIBE", Nth: -1, Kind: "hdr-lit", S: "Content-Base\x00/" + c.Path + "/"})
+	case "relpath-esc":
+		// a relative Content-Base (some cameras send one) that carries a percent-escape: it is an encoded path, to be
+		// taken as written
+		baseURL = noQuery + "/a%20b/"
+		srv.Rules = append(srv.Rules, SrvRule{Method: "DESCRIBE", Nth: -1, Kind: "hdr-lit", S: "Content-Base\x00/" + c.Path + "/a%20b/"})
 	default:
 		baseURL = "rtsp://" + host + "/other/"
 		srv.Rules = append(srv.Rules, SrvRule{Method: "DESCRIBE", Nth: -1, Kind: "hdr-lit", S: "Content-Base\x00" + baseURL})
